@@ -508,6 +508,8 @@ func runChild(id, tier string, seed uint64, bdir, bin string, r *childRun, timeo
 		journal := filepath.Join(bdir, tag+".journal")
 		logf := filepath.Join(bdir, tag+".log")
 		lf, _ := os.Create(logf)
+		scratch := filepath.Join("/var/tmp", fmt.Sprintf("verif-%s-%s-%d", id, tag, os.Getpid()))
+		defer os.RemoveAll(scratch)
 		cmd := exec.Command("timeout", "-s", "QUIT", "-k", "20", strconv.Itoa(timeoutS), bin,
 			"-test.run", "^TestCheck$", "-test.timeout=0", "-test.count=1")
 		cmd.Dir = filepath.Join(harnessDir, pkgDir(id))
@@ -520,7 +522,7 @@ func runChild(id, tier string, seed uint64, bdir, bin string, r *childRun, timeo
 			"VERIF_JOURNAL="+journal,
 			"VERIF_BUILD="+r.build,
 			"VERIF_REPO_DIR="+repoDir(),
-			"VERIF_SCRATCH="+filepath.Join("/var/tmp", fmt.Sprintf("verif-%s-%s-%d", id, tag, os.Getpid())),
+			"VERIF_SCRATCH="+scratch,
 			"GORACE=halt_on_error=0 log_path="+filepath.Join(bdir, "race."+tag),
 			"GOTRACEBACK=all",
 		)
